@@ -290,3 +290,760 @@ Proof.
   step_cases H; unf; simpl in *; try assumption;
     try match goal with b : bool |- _ => destruct b end; simpl; rewrite ?A; try reflexivity; try assumption.
 Qed.
+
+(* ------------------------------------------------------------------ well-formed clients *)
+
+(* The invariant of reactor + well-formed client.  Every tracked seed is in exactly one place
+   (w_loc1): carried by an insert that has stored it, in the input channel, in run()'s hand, in
+   the output buffer, held by the client, or carried by a feedback / an unfinished finish call. *)
+Record WInv (s : state) : Prop := {
+  w_crash : crashed s = false;
+  w_loc1 : forall j, sumw (w_loc_id j) (calls s) + cnt j (input s) + cnt j (hand_list s)
+                     + cnt j (outq s) + cnt j (held s) = cnt j (table s);
+  w_pre : forall j, sumw (w_pre_id j) (calls s) + cnt j (table s) <= 1;
+  w_len : sumw w_loc (calls s) + length (input s) + length (hand_list s)
+          + length (outq s) + length (held s) = length (table s);
+  w_acc1 : tokens s = length (table s) + sumw w_trans (calls s);
+  w_acc2 : tokens s <= cap s;
+  w_nil : nilled s = true -> calls s = [];
+  w_run : running s = false -> cancelled s = true;
+  w_can : cancelled s = true -> frozen s = true;
+  w_noorig : sumw w_orig (calls s) = 0 }.
+
+Lemma winv_init : forall n m, WInv (init n m).
+Proof. intros n m. constructor; simpl; auto; try discriminate; intros; lia. Qed.
+
+Lemma pre_zero : forall i l, ~ In i (omap ins_pre_id l) -> sumw (w_pre_id i) l = 0.
+Proof.
+  induction l as [|p r IH]; simpl; intros H; [auto|].
+  destruct p; simpl in *; try (apply IH; exact H);
+    try (destruct (i0 =? i) eqn:E;
+         [apply Nat.eqb_eq in E; subst; exfalso; apply H; left; reflexivity
+         | apply IH; intro; apply H; right; assumption]).
+Qed.
+
+Ltac facts2 :=
+  repeat match goal with
+  | H : memb Nat.eqb _ _ = true |- _ => apply memb_nat_In in H
+  | H : memb Nat.eqb _ _ = false |- _ => apply memb_nat_notIn in H
+  | H : (_ && _) = true |- _ => apply andb_true_iff in H; destruct H
+  | H : negb _ = true |- _ => apply negb_true_iff in H
+  | H : tracked _ _ = true |- _ => unfold tracked in H; apply memb_nat_In in H
+  | H : tracked _ _ = false |- _ => unfold tracked in H; apply memb_nat_notIn in H
+  end.
+
+(* branches that a well-formed client never reaches *)
+Ltac absurd_branch W :=
+  match goal with
+  | Hn : nilled ?s = true, Hin : In _ (calls ?s) |- _ =>
+      exfalso; rewrite (w_nil _ W Hn) in Hin; exact Hin
+  | Hin : In (PInsStore ?i) (calls ?s), Ht : In ?i (table ?s) |- _ =>
+      exfalso; apply cnt_pos_In in Ht;
+      pose proof (sumw_In_le (w_pre_id i) _ _ Hin) as Hle; simpl in Hle; rewrite Nat.eqb_refl in Hle;
+      pose proof (w_pre _ W i); lia
+  | Hin : In ?p (calls ?s), Hn : ~ In ?i (table ?s) |- _ =>
+      exfalso; apply Hn; apply cnt_pos_In;
+      pose proof (sumw_In_le (w_loc_id i) p (calls s) Hin) as Hle; simpl in Hle; rewrite Nat.eqb_refl in Hle;
+      pose proof (w_loc1 _ W i); lia
+  | Hin : In (PFbSwap ?i) (calls ?s) |- _ =>
+      exfalso; pose proof (sumw_In_le w_orig _ _ Hin) as Hle; simpl in Hle; pose proof (w_noorig _ W); lia
+  end.
+
+Ltac pose_all j :=
+  pose_sums w_loc; pose_sums (w_loc_id j); pose_sums (w_pre_id j); pose_sums w_trans; pose_sums w_orig.
+
+Ltac rem_facts j :=
+  repeat match goal with
+  | Hin : In ?i (held ?s) |- _ =>
+      lazymatch goal with
+      | _ : S (length (rem1 Nat.eqb i (held s))) = _ |- _ => fail
+      | _ => pose proof (length_rem1 i (held s) Hin); pose proof (cnt_rem1 j i (held s) Hin)
+      end
+  | Hin : In ?i (table ?s) |- _ =>
+      lazymatch goal with
+      | _ : S (length (rem1 Nat.eqb i (table s))) = _ |- _ => fail
+      | _ => pose proof (length_rem1 i (table s) Hin); pose proof (cnt_rem1 j i (table s) Hin)
+      end
+  end.
+
+Ltac chan_eqs :=
+  unfold hand_list in *;
+  repeat match goal with
+  | E : hand ?s = _ |- _ => rewrite E in *; clear E
+  | E : input ?s = _ |- _ => rewrite E in *; clear E
+  | E : outq ?s = _ |- _ => rewrite E in *; clear E
+  end.
+
+Lemma winv_step : forall s l s',
+  WInv s -> wf_label s l = true -> step fixed s l = Some s' -> WInv s'.
+Proof.
+  intros s l s' W Hwf H.
+  pose proof (w_crash s W) as Wc; pose proof (w_loc1 s W) as W1; pose proof (w_pre s W) as Wp;
+    pose proof (w_len s W) as Wl; pose proof (w_acc1 s W) as Wa1; pose proof (w_acc2 s W) as Wa2;
+    pose proof (w_nil s W) as Wn; pose proof (w_run s W) as Wr; pose proof (w_can s W) as Wcn;
+    pose proof (w_noorig s W) as Wo.
+  step_cases H; simpl in Hwf; facts2; try (absurd_branch W).
+  all: constructor; unf; simpl; try assumption; try reflexivity.
+  all: try match goal with
+           | Hp : ~ In ?i (omap ins_pre_id (calls ?s)), Ht : ~ In ?i (table ?s) |- _ =>
+               pose proof (pre_zero i _ Hp); apply cnt_zero_notIn in Ht
+           end.
+  all: try (intro j; specialize (W1 j); specialize (Wp j); pose_all j; rem_facts j; chan_eqs;
+            rewrite ?cnt_app, ?app_length in *; simpl in *; unfold id in *; eqbs; lia).
+  all: try (pose_all 0; rem_facts 0; chan_eqs; rewrite ?app_length in *; simpl in *; unfold id in *; lia).
+  all: try (intros; simpl in *; congruence).
+  all: try (intros; simpl in *; auto; fail).
+  all: try (intro Hx; exfalso; match goal with Hin : In _ (calls ?s) |- _ => rewrite (Wn Hx) in Hin; exact Hin end).
+  all: try (intros _; match goal with Hw : match calls ?s with _ => _ end = true |- _ => destruct (calls s); [reflexivity | discriminate Hw] end).
+Qed.
+
+(* ------------------------------------------------------------------ theorems over all label sequences *)
+
+Lemma cap_step : forall v s l s', step v s l = Some s' -> cap s' = cap s /\ ocap s' = ocap s.
+Proof. intros v s l s' H. step_cases H; unf; simpl; auto. Qed.
+
+Lemma acc_init : forall n m, Acc (init n m).
+Proof. intros n m _. simpl. lia. Qed.
+
+Lemma accounting_lemma : forall v n m ls s, v_fb_fix v = true ->
+  run v (init n m) ls = Some s -> crashed s = false ->
+  tokens s = length (table s) + sumw w_trans (calls s)
+  /\ length (table s) <= tokens s <= n
+  /\ NoDup (table s)
+  /\ (calls s = [] -> tokens s = length (table s)).
+Proof.
+  intros v n m ls s Hv H Hc.
+  assert (A : Acc s).
+  { eapply run_inv; [| apply (acc_init n m) | exact H]. intros. eapply acc_step; eauto. }
+  assert (C : cap s = n).
+  { eapply (run_inv v (fun s => cap s = n)); [| | exact H]; [|reflexivity].
+    intros s0 l s1 E0 E1. apply cap_step in E1. destruct E1. congruence. }
+  assert (D : NoDup (table s)).
+  { eapply (run_inv v (fun s => NoDup (table s))); [| | exact H]; [|constructor].
+    intros. eapply nodup_step; eauto. }
+  destruct (A Hc) as [A1 A2]. split; [exact A1|]. split; [lia|]. split; [exact D|].
+  intro E. rewrite E in A1. simpl in A1. lia.
+Qed.
+
+Lemma ledger_init : forall n m, Ledger (init n m).
+Proof. intros n m _ j. reflexivity. Qed.
+
+Lemma ledger_lemma : forall v n m ls s, v_fb_fix v = true ->
+  run v (init n m) ls = Some s -> crashed s = false ->
+  (forall j, cnt j (table s) + cntret (OFin j) ROk (rets s) + sumw (w_rel_id j) (calls s)
+             = cntret (OIns j) ROk (rets s) + sumw (w_send_id j) (calls s))
+  /\ (calls s = [] -> forall j, cnt j (table s) + cntret (OFin j) ROk (rets s) = cntret (OIns j) ROk (rets s)).
+Proof.
+  intros v n m ls s Hv H Hc.
+  assert (A : Ledger s).
+  { eapply run_inv; [| apply (ledger_init n m) | exact H]. intros. eapply ledger_step; eauto. }
+  split; [exact (A Hc)|]. intros E j. pose proof (A Hc j) as Aj. rewrite E in Aj. simpl in Aj. lia.
+Qed.
+
+Lemma fifo_lemma : forall v n m ls s, run v (init n m) ls = Some s ->
+  consumed s ++ outq s ++ hand_list s ++ input s = rev (omap send_ok (rets s)).
+Proof.
+  intros v n m ls s H.
+  assert (A : sent s = flow s).
+  { eapply (run_inv v (fun s => sent s = flow s)); [| | exact H]; [|reflexivity].
+    intros. eapply fifo_step; eauto. }
+  assert (B : sent s = rev (omap send_ok (rets s))).
+  { eapply (run_inv v (fun s => sent s = rev (omap send_ok (rets s)))); [| | exact H]; [|reflexivity].
+    intros. eapply sent_rets_step; eauto. }
+  unfold flow in A. congruence.
+Qed.
+
+(* ------------------------------------------------------------------ feedback: no token, never blocks *)
+
+Lemma fb_no_token_lemma : forall v s l s',
+  step v s l = Some s' -> fb_step l = true \/ (exists i, l = FbSwap i) -> tokens s' = tokens s.
+Proof.
+  intros v s l s' H F. step_cases H; destruct F as [F|[k F]]; simpl in F; try discriminate F;
+    unf; simpl; reflexivity.
+Qed.
+
+Lemma winv_runw : forall n m ls s, runw fixed (init n m) ls = Some s -> WInv s.
+Proof.
+  intros n m ls s H. eapply runw_inv; [| apply (winv_init n m) | exact H].
+  intros. eapply winv_step; eauto.
+Qed.
+
+Lemma winv_room : forall s p, WInv s -> In p (calls s) -> w_loc p = 1 -> length (input s) < cap s.
+Proof.
+  intros s p W Hin Hp. pose proof (sumw_In_le w_loc p (calls s) Hin).
+  pose proof (w_len s W). pose proof (w_acc1 s W). pose proof (w_acc2 s W). lia.
+Qed.
+
+Lemma winv_alive : forall s p, WInv s -> In p (calls s) -> nilled s = false.
+Proof.
+  intros s p W Hin. destruct (nilled s) eqn:E; [|reflexivity].
+  rewrite (w_nil s W E) in Hin. destruct Hin.
+Qed.
+
+Lemma never_blocks_lemma : forall n m ls s i, runw fixed (init n m) ls = Some s ->
+  (In (PFbSel i) (calls s) -> length (input s) < cap s /\ exists s', step fixed s (FbSelect i ArmChan) = Some s')
+  /\ (In (PInsSend i) (calls s) -> length (input s) < cap s /\ exists s', step fixed s (InsSend i) = Some s').
+Proof.
+  intros n m ls s i H. pose proof (winv_runw _ _ _ _ H) as W. split; intro Hin.
+  - assert (L : length (input s) < cap s) by (eapply winv_room; eauto).
+    split; [exact L|]. unfold step. rewrite (w_crash s W). unfold at_pc.
+    rewrite (proj2 (memb_pc_In _ _) Hin), (winv_alive _ _ W Hin).
+    apply Nat.ltb_lt in L. rewrite L. eauto.
+  - assert (L : length (input s) < cap s) by (eapply winv_room; eauto).
+    split; [exact L|]. unfold step. rewrite (w_crash s W). unfold at_pc.
+    rewrite (proj2 (memb_pc_In _ _) Hin), (winv_alive _ _ W Hin).
+    apply Nat.ltb_lt in L. rewrite L. eauto.
+Qed.
+
+(* a well-formed client never makes the reactor panic *)
+Lemma wf_no_crash_lemma : forall n m ls s, runw fixed (init n m) ls = Some s -> crashed s = false.
+Proof. intros. eapply w_crash, winv_runw; eauto. Qed.
+
+(* ------------------------------------------------------------------ rejected calls change nothing *)
+
+Lemma cons_neq : forall {A} (x : A) l, x :: l <> l.
+Proof. intros A x l H. apply (f_equal (@length A)) in H. simpl in H. lia. Qed.
+
+Lemma reject_pure_lemma : forall v s l s' o r, v_fb_fix v = true -> step v s l = Some s' ->
+  rets s' = (o, r) :: rets s -> r = RNotPresent \/ r = RNotFound \/ r = RNotInit ->
+  observe s' = observe s.
+Proof.
+  intros v s l s' o r Hv H R D. step_cases H; unf; simpl in *;
+    try (rewrite Hv in *; try discriminate);
+    try (symmetry in R; apply cons_neq in R; destruct R);
+    try match goal with b : bool |- _ => destruct b end;
+    inversion R; subst; destruct D as [D|[D|D]]; try discriminate D; reflexivity.
+Qed.
+
+Lemma unknown_feedback_lemma : forall s i,
+  crashed s = false -> nilled s = false -> ~ In i (table s) ->
+  exists s', run fixed s [FbCall i; FbLoad i] = Some s'
+             /\ rets s' = (OFb i, RNotPresent) :: rets s
+             /\ observe s' = observe s /\ calls s' = calls s.
+Proof.
+  intros s i Hc Hn Ht. apply memb_nat_notIn in Ht.
+  unfold run, step. rewrite Hc, Hn. simpl. rewrite Hc. unfold at_pc. simpl.
+  rewrite Nat.eqb_refl, Hn. simpl. unfold tracked. simpl. rewrite Ht.
+  eexists. split; [reflexivity|]. unfold observe. simpl. rewrite Nat.eqb_refl, Hc. auto.
+Qed.
+
+Lemma repeated_finish_lemma : forall v n m ls s i, v_fb_fix v = true ->
+  run v (init n m) ls = Some s -> crashed s = false -> nilled s = false -> In i (table s) ->
+  exists s1 s2,
+    run v s [FinCall i; FinDelete i; FinRelease i] = Some s1
+    /\ rets s1 = (OFin i, ROk) :: rets s /\ S (tokens s1) = tokens s /\ ~ In i (table s1)
+    /\ run v s1 [FinCall i; FinDelete i] = Some s2
+    /\ rets s2 = (OFin i, RNotFound) :: rets s1 /\ observe s2 = observe s1 /\ calls s2 = calls s1.
+Proof.
+  intros v n m ls s i Hv H Hc Hn Ht.
+  destruct (accounting_lemma v n m ls s Hv H Hc) as [_ [[A _] [D _]]].
+  assert (T : 0 < tokens s).
+  { pose proof (length_rem1 i (table s) Ht). unfold id in *. lia. }
+  assert (N : ~ In i (rem1 Nat.eqb i (table s))).
+  { intro X. apply cnt_pos_In in X. pose proof (cnt_rem1 i i (table s) Ht) as Y.
+    rewrite Nat.eqb_refl in Y.
+    assert (cnt i (table s) <= 1).
+    { clear -D. induction (table s) as [|x r IH]; simpl; [lia|]. inversion D; subst.
+      destruct (x =? i) eqn:E; [apply Nat.eqb_eq in E; subst|auto].
+      apply cnt_zero_notIn in H1. lia. }
+    lia. }
+  pose proof Ht as Ht'. apply memb_nat_In in Ht'. pose proof N as N'. apply memb_nat_notIn in N'.
+  apply Nat.ltb_lt in T.
+  unfold run, step. rewrite Hc, Hn. simpl. rewrite Hc. unfold at_pc. simpl.
+  rewrite Nat.eqb_refl, Hn. simpl. unfold tracked. simpl. rewrite Ht'. simpl. rewrite Hc. simpl.
+  rewrite Nat.eqb_refl, Hn. simpl. rewrite T. simpl.
+  eexists. eexists. split; [reflexivity|]. simpl.
+  split; [reflexivity|]. split; [apply Nat.ltb_lt in T; lia|]. split; [exact N|].
+  rewrite Hc, Hn. simpl. rewrite Hc, Nat.eqb_refl, Hn. simpl. rewrite N'.
+  split; [reflexivity|]. simpl. rewrite Nat.eqb_refl. unfold observe. simpl. auto.
+Qed.
+
+(* ------------------------------------------------------------------ frozen / stopped: nothing is accepted *)
+
+(* the reactor is frozen (or stopping) and no call in progress has passed its test of ctx/freezeCtx *)
+Definition Closed (s : state) : Prop := frozen s = true /\ sumw w_past (calls s) = 0.
+
+Ltac step_cases2 H :=
+  step_cases H;
+  repeat match goal with
+  | E : match ?x with _ => _ end = _ |- _ => destruct x eqn:?; try discriminate E
+  end;
+  repeat match goal with
+  | E : Some _ = Some _ |- _ => inversion E; subst; clear E
+  end; facts.
+
+Lemma closed_step : forall s l s', Closed s -> step fixed s l = Some s' ->
+  Closed s'
+  /\ (forall j, In j (table s') -> In j (table s))
+  /\ sent s' = sent s
+  /\ (rets s' = rets s \/ exists x, rets s' = x :: rets s /\ accepting x = false).
+Proof.
+  intros s l s' [F P] H. step_cases2 H; unf; unfold Closed; simpl in *;
+    pose_sums w_past; simpl in *;
+    try match goal with Hf : frozen _ = false |- _ => congruence end;
+    try match goal with b : bool |- _ => destruct b end; simpl in *;
+    try (exfalso; lia);
+    (split; [split; [assumption || reflexivity | lia] |]);
+    (split; [intros j Hj; try assumption; try (eapply In_rem1; eassumption); fail |]);
+    (split; [reflexivity |]); auto; right; eexists; split; reflexivity.
+Qed.
+
+Lemma closed_lemma : forall ls s s', Closed s -> run fixed s ls = Some s' ->
+  Closed s'
+  /\ (forall j, In j (table s') -> In j (table s))
+  /\ sent s' = sent s
+  /\ exists new, rets s' = new ++ rets s /\ Forall (fun x => accepting x = false) new.
+Proof.
+  induction ls as [|l r IH]; simpl; intros s s' C H.
+  - inversion H; subst. split; [exact C|]. split; [auto|]. split; [reflexivity|].
+    exists []. split; [reflexivity | constructor].
+  - destruct (step fixed s l) as [s1|] eqn:E; [|discriminate].
+    destruct (closed_step _ _ _ C E) as [C1 [T1 [S1 R1]]].
+    destruct (IH _ _ C1 H) as [C2 [T2 [S2 [new [R2 F2]]]]].
+    split; [exact C2|]. split; [auto|]. split; [congruence|].
+    destruct R1 as [R1|[x [R1 A1]]].
+    + exists new. split; [congruence | exact F2].
+    + exists (new ++ [x]). split.
+      * rewrite R2, R1, <- app_assoc. reflexivity.
+      * apply Forall_app. split; [exact F2 | constructor; [exact A1 | constructor]].
+Qed.
+
+(* Once Freeze() (or the cancel() of Stop()) has happened with no call past its test, whatever
+   follows: no seed is added to the state table, nothing is sent to the input channel, and no
+   insert and no feedback returns nil. *)
+Lemma closed_accepts_nothing_lemma : forall s0 l ls s1 s2,
+  l = Freeze \/ l = StopCancel ->
+  nilled s0 = false -> sumw w_past (calls s0) = 0 ->
+  step fixed s0 l = Some s1 -> run fixed s1 ls = Some s2 ->
+  (forall j, In j (table s2) -> In j (table s0))
+  /\ sent s2 = sent s0
+  /\ exists new, rets s2 = new ++ rets s0 /\ Forall (fun x => accepting x = false) new.
+Proof.
+  intros s0 l ls s1 s2 L N P H R.
+  assert (C : Closed s1 /\ table s1 = table s0 /\ sent s1 = sent s0 /\ rets s1 = rets s0).
+  { destruct L; subst l; unfold step in H; destruct (crashed s0); try discriminate;
+      rewrite N in H; inversion H; subst; unfold Closed; unf; simpl; auto. }
+  destruct C as [C [T [S X]]].
+  destruct (closed_lemma _ _ _ C R) as [_ [T2 [S2 [new [R2 F2]]]]].
+  split; [intros j Hj; rewrite <- T; auto|]. split; [congruence|].
+  exists new. split; [congruence | exact F2].
+Qed.
+
+(* after Stop() has completed every call reports "not initialized" and changes nothing *)
+Lemma stopped_lemma : forall v s o, crashed s = false -> nilled s = true ->
+  step v s (match o with OIns i => InsCall i | OFb i => FbCall i | OFin i => FinCall i end)
+  = Some (ret o RNotInit s).
+Proof. intros v s o Hc Hn. destruct o; unfold step; rewrite Hc, Hn; reflexivity. Qed.
+
+(* ------------------------------------------------------------------ the original code *)
+
+(* ReceiveFeedback before the fix: feedback for a seed the reactor does not track is "rejected"
+   and yet leaves the seed in the state table with no token; a finish of that seed then waits
+   for a token that nobody holds. *)
+Lemma unknown_feedback_orig_refuted :
+  exists ls s s2,
+    run original (init 1 1) ls = Some s
+    /\ crashed s = false /\ calls s = [] /\ rets s = [(OFb 7, RNotPresent)]
+    /\ table s = [7] /\ tokens s = 0
+    /\ run original s [FinCall 7; FinDelete 7] = Some s2
+    /\ calls s2 = [PFinRel 7] /\ step original s2 (FinRelease 7) = None.
+Proof.
+  exists [FbCall 7; FbSwap 7]. eexists. eexists. vm_compute. repeat split; reflexivity.
+Qed.
+
+(* ReceiveInsert / ReceiveFeedback before the fix: with the reactor frozen and no call in
+   progress, an insert (and a feedback) issued afterwards is accepted *)
+Lemma frozen_accepts_orig_refuted :
+  exists s0 ls s2,
+    run original (init 2 1) [InsCall 1; InsSelect 1 ArmChan; InsStore 1; InsSend 1; RunRecv; RunHand] = Some s0
+    /\ calls s0 = [] /\ nilled s0 = false
+    /\ run original s0 (Freeze :: ls) = Some s2
+    /\ frozen s2 = true
+    /\ rets s2 = [(OFb 1, ROk); (OIns 2, ROk)] ++ rets s0
+    /\ table s2 = [2; 1] /\ sent s2 = sent s0 ++ [2; 1].
+Proof.
+  eexists. exists [InsCall 2; InsSelect 2 ArmChan; InsStore 2; InsSend 2; FbCall 1; FbSwap 1; FbSelect 1 ArmChan].
+  eexists. vm_compute. repeat split; reflexivity.
+Qed.
+
+(* ------------------------------------------------------------------ delivery *)
+
+(* steps of run() and of the consumers keep everything in transit in order and use up the measure *)
+Lemma sys_step_lemma : forall v s l s', sys_step l = true -> step v s l = Some s' ->
+  flow s' = flow s /\ sys_measure s' < sys_measure s
+  /\ tokens s' = tokens s /\ table s' = table s /\ calls s' = calls s /\ rets s' = rets s.
+Proof.
+  intros v s l s' L H. unfold flow, sys_measure, hand_list.
+  step_cases H; try discriminate L; unf; simpl;
+    repeat match goal with E : hand s = _ |- _ => rewrite E in *; clear E
+                         | E : input s = _ |- _ => rewrite E in *; clear E
+                         | E : outq s = _ |- _ => rewrite E in *; clear E end;
+    simpl; rewrite ?app_length; simpl; repeat rewrite <- app_assoc; simpl;
+    (split; [reflexivity|]); (split; [lia|]); auto.
+Qed.
+
+Lemma sys_enabled_lemma : forall v s, crashed s = false -> running s = true -> 0 < sys_measure s ->
+  exists l s', sys_step l = true /\ step v s l = Some s'.
+Proof.
+  intros v s Hc Hr M. unfold sys_measure, hand_list in M.
+  destruct (outq s) as [|o q] eqn:Eo.
+  - destruct (hand s) as [h|] eqn:Eh.
+    + exists RunHand. unfold step. rewrite Hc, Hr, Eh, Eo. eauto.
+    + destruct (input s) as [|x r] eqn:Ei; [simpl in M; lia|].
+      exists RunRecv. unfold step. rewrite Hc, Hr, Eh, Ei. eauto.
+  - exists Consume. unfold step. rewrite Hc, Eo. eauto.
+Qed.
+
+Lemma sys_done_lemma : forall s, sys_measure s = 0 -> consumed s = flow s.
+Proof.
+  intros s M. unfold sys_measure, flow, hand_list in *.
+  destruct (input s); [|simpl in M; lia]. destruct (hand s); [simpl in M; lia|].
+  destruct (outq s); [|simpl in M; lia]. simpl. rewrite app_nil_r. reflexivity.
+Qed.
+
+(* every sequence of run()/consumer steps is shorter than the measure and loses nothing *)
+Lemma sys_run_lemma : forall v ls s s', forallb sys_step ls = true -> run v s ls = Some s' ->
+  flow s' = flow s /\ sys_measure s' + length ls <= sys_measure s
+  /\ tokens s' = tokens s /\ table s' = table s /\ calls s' = calls s.
+Proof.
+  induction ls as [|l r IH]; simpl; intros s s' A H.
+  - inversion H; subst. repeat split; try reflexivity; try lia.
+  - apply andb_true_iff in A. destruct A as [A1 A2].
+    destruct (step v s l) as [s1|] eqn:E; [|discriminate].
+    destruct (sys_step_lemma _ _ _ _ A1 E) as [F1 [M1 [T1 [B1 [C1 _]]]]].
+    destruct (IH _ _ A2 H) as [F2 [M2 [T2 [B2 C2]]]].
+    repeat split; try congruence; lia.
+Qed.
+
+(* the explicit schedule: with run() alive and a consumer reading, everything in transit is
+   delivered, in the order in which it was sent *)
+Lemma consume_all : forall v q s, crashed s = false -> outq s = q ->
+  exists s', run v s (repeat Consume (length q)) = Some s'
+    /\ consumed s' = consumed s ++ q /\ outq s' = [] /\ hand s' = hand s /\ input s' = input s
+    /\ crashed s' = false /\ running s' = running s.
+Proof.
+  induction q as [|x q IH]; intros s Hc Ho; simpl.
+  - exists s. rewrite app_nil_r. repeat split; auto.
+  - unfold step at 1. rewrite Hc, Ho.
+    match goal with |- context [run v ?s1 _] => destruct (IH s1) as [s' [R [C [O [Hh [I [Cr Ru]]]]]]] end;
+      [exact Hc | reflexivity |].
+    exists s'. split; [exact R|]. simpl in *. rewrite C, <- app_assoc. repeat split; auto.
+Qed.
+
+Lemma drain_input_all : forall v q s, crashed s = false -> running s = true ->
+  input s = q -> hand s = None -> outq s = [] ->
+  exists s', run v s (drain_input (length q)) = Some s'
+    /\ consumed s' = consumed s ++ q /\ outq s' = [] /\ hand s' = None /\ input s' = [].
+Proof.
+  induction q as [|x q IH]; intros s Hc Hr Hi Hh Ho; simpl.
+  - exists s. rewrite app_nil_r. repeat split; auto.
+  - unfold step at 1. rewrite Hc, Hr, Hh, Hi.
+    unfold step at 1. simpl. rewrite Hc, Hr, Ho.
+    match goal with |- context [run v ?s1 _] => destruct (IH s1) as [s' [R [C [O [H1 I]]]]] end;
+      try reflexivity; try assumption.
+    exists s'. split; [exact R|]. simpl in *. rewrite C, <- app_assoc. repeat split; auto.
+Qed.
+
+Lemma drain_rest : forall v s, crashed s = false -> running s = true -> outq s = [] ->
+  exists s', run v s ((match hand s with Some _ => [RunHand] | None => [] end)
+                      ++ drain_input (length (input s))) = Some s'
+    /\ consumed s' = consumed s ++ hand_list s ++ input s
+    /\ outq s' = [] /\ hand s' = None /\ input s' = [].
+Proof.
+  intros v s Hc Hr Ho. unfold hand_list. destruct (hand s) as [h|] eqn:Eh.
+  - simpl. unfold step at 1. rewrite Hc, Hr, Eh, Ho.
+    match goal with |- context [run v ?s2 _] =>
+      destruct (drain_input_all v (input s) s2) as [s' [R [C [O [H2 I]]]]] end;
+      try reflexivity; try assumption.
+    simpl in R. exists s'. split; [exact R|]. simpl in C. rewrite C.
+    repeat rewrite <- app_assoc. repeat split; auto.
+  - simpl. destruct (drain_input_all v (input s) s Hc Hr eq_refl Eh Ho) as [s' [R [C [O [H2 I]]]]].
+    exists s'. split; [exact R|]. rewrite C. repeat split; auto.
+Qed.
+
+Lemma drain_lemma : forall v s, crashed s = false -> running s = true ->
+  exists s', run v s (drain_labels s) = Some s'
+    /\ consumed s' = flow s /\ outq s' = [] /\ hand s' = None /\ input s' = [].
+Proof.
+  intros v s Hc Hr. unfold drain_labels, flow.
+  destruct (consume_all v (outq s) s Hc eq_refl) as [s1 [R1 [C1 [O1 [H1 [I1 [Cr1 Ru1]]]]]]].
+  rewrite Hr in Ru1.
+  destruct (drain_rest v s1 Cr1 Ru1 O1) as [s' [R [C [O [H2 I]]]]].
+  unfold hand_list in *. rewrite H1, I1 in *.
+  exists s'. rewrite run_app, R1. split; [exact R|]. rewrite C, C1.
+  repeat rewrite <- app_assoc. repeat split; auto.
+Qed.
+
+(* ------------------------------------------------------------------ progress *)
+
+(* every step of a call in progress, of run() or of a consumer uses up the measure: with a
+   well-formed client every execution of internal steps is finite *)
+Lemma measure_step : forall s l s', WInv s -> internal l = true -> step fixed s l = Some s' ->
+  measure s' < measure s.
+Proof.
+  intros s l s' W I H. unfold measure, sys_measure, hand_list.
+  step_cases2 H; try discriminate I; try (absurd_branch W); unf; simpl;
+    pose_sums w_measure;
+    repeat match goal with E : hand s = _ |- _ => rewrite E in *; clear E
+                         | E : input s = _ |- _ => rewrite E in *; clear E
+                         | E : outq s = _ |- _ => rewrite E in *; clear E end;
+    rewrite ?app_length in *; simpl in *; lia.
+Qed.
+
+Lemma measure_run : forall ls s s', WInv s -> forallb internal ls = true ->
+  run fixed s ls = Some s' -> measure s' + length ls <= measure s.
+Proof.
+  induction ls as [|l r IH]; simpl; intros s s' W A H.
+  - inversion H; subst. lia.
+  - apply andb_true_iff in A. destruct A as [A1 A2].
+    destruct (step fixed s l) as [s1|] eqn:E; [|discriminate].
+    pose proof (measure_step _ _ _ W A1 E).
+    assert (W1 : WInv s1).
+    { eapply winv_step; eauto. destruct l; simpl in A1; try discriminate; reflexivity. }
+    specialize (IH _ _ W1 A2 H). lia.
+Qed.
+
+(* what moves the system on without a new insert / feedback: a step of a call in progress, of
+   run(), of a consumer, or the client finishing a seed it holds *)
+Definition progress_label (l : label) : bool :=
+  internal l || match l with FinCall _ => true | _ => false end.
+
+Definition w_nonsel (p : pc) : nat := match p with PInsSel _ => 0 | _ => 1 end.
+
+Lemma at_pc_In : forall p s, In p (calls s) -> at_pc p s = true.
+Proof. intros. unfold at_pc. apply memb_pc_In. assumption. Qed.
+
+Ltac enabled W Hin :=
+  unfold step; rewrite (w_crash _ W), (at_pc_In _ _ Hin), ?(winv_alive _ _ W Hin).
+
+Lemma closed_test_total : forall s, exists a x, closed_test s a = Some x.
+Proof.
+  intro s. destruct (cancelled s) eqn:C.
+  - exists ArmCtx. simpl. rewrite C. eauto.
+  - destruct (frozen s) eqn:F.
+    + exists ArmFrozen. simpl. rewrite F. eauto.
+    + exists ArmChan. simpl. rewrite F, C. simpl. eauto.
+Qed.
+
+(* a call that is not waiting for a token can always take its next step *)
+Lemma call_enabled : forall s p, WInv s -> In p (calls s) -> w_nonsel p = 1 ->
+  exists l s', call_step l = true /\ step fixed s l = Some s'.
+Proof.
+  intros s p W Hin Hp.
+  assert (T : w_trans p = 1 -> 0 < tokens s).
+  { intro X. pose proof (sumw_In_le w_trans p (calls s) Hin). pose proof (w_acc1 s W). lia. }
+  assert (R : w_loc p = 1 -> (length (input s) <? cap s) = true).
+  { intro X. apply Nat.ltb_lt. eapply winv_room; eauto. }
+  destruct p; simpl in Hp; try discriminate Hp.
+  - destruct (closed_test_total s) as [a [x C]].
+    exists (InsCheck i a). enabled W Hin. rewrite C. destruct x; eauto.
+  - exists (InsBack i shut). enabled W Hin. specialize (T eq_refl). apply Nat.ltb_lt in T. rewrite T. eauto.
+  - exists (InsStore i). enabled W Hin.
+    assert (X : tracked i s = false).
+    { unfold tracked. apply memb_nat_notIn. intro Y. apply cnt_pos_In in Y.
+      pose proof (sumw_In_le (w_pre_id i) _ _ Hin) as Z. simpl in Z. rewrite Nat.eqb_refl in Z.
+      pose proof (w_pre s W i). lia. }
+    rewrite X. eauto.
+  - exists (InsSend i). enabled W Hin. rewrite (R eq_refl). eauto.
+  - exists (FbLoad i). enabled W Hin. destruct (tracked i s); eauto.
+  - exists (FbCas i). enabled W Hin. destruct (tracked i s); eauto.
+  - exfalso. pose proof (sumw_In_le w_orig _ _ Hin) as Z. simpl in Z. pose proof (w_noorig s W). lia.
+  - destruct (closed_test_total s) as [a [x C]].
+    exists (FbCheck i a). enabled W Hin. rewrite C. destruct x; eauto.
+  - exists (FbSelect i ArmChan). enabled W Hin. rewrite (R eq_refl). eauto.
+  - exists (FinDelete i). enabled W Hin. destruct (tracked i s); eauto.
+  - exists (FinRelease i). enabled W Hin. specialize (T eq_refl). apply Nat.ltb_lt in T. rewrite T. eauto.
+Qed.
+
+Lemma all_sel : forall l, sumw w_nonsel l = 0 ->
+  sumw w_trans l = 0 /\ sumw w_loc l = 0.
+Proof.
+  induction l as [|p r IH]; simpl; intro H; [auto|].
+  destruct p; simpl in *; lia.
+Qed.
+
+(* No deadlock: with at least one token configured, whenever a call is in progress something can
+   move that does not need a new insert or feedback: a step of a call, of run() or of a consumer,
+   or the client finishing a seed it holds. *)
+Lemma deadlock_free_lemma : forall s, WInv s -> 1 <= cap s -> calls s <> [] ->
+  exists l s', progress_label l = true /\ wf_label s l = true /\ step fixed s l = Some s'.
+Proof.
+  intros s W Hcap Hne.
+  destruct (sumw w_nonsel (calls s)) eqn:NS.
+  - (* only inserts waiting in their select *)
+    destruct (calls s) as [|p r] eqn:Ec; [congruence|].
+    assert (Hin : In p (calls s)) by (rewrite Ec; left; reflexivity).
+    assert (Hp : w_nonsel p = 0) by (simpl in NS; lia).
+    destruct p; simpl in Hp; try discriminate Hp.
+    destruct (cancelled s) eqn:C.
+    { exists (InsSelect i ArmCtx). enabled W Hin. rewrite C. eauto. }
+    destruct (frozen s) eqn:F.
+    { exists (InsSelect i ArmFrozen). enabled W Hin. rewrite F. eauto. }
+    destruct (tokens s <? cap s) eqn:T.
+    { exists (InsSelect i ArmChan). enabled W Hin. rewrite T. eauto. }
+    apply Nat.ltb_ge in T.
+    rewrite <- Ec in NS. destruct (all_sel _ NS) as [Z1 Z2].
+    pose proof (w_acc1 s W) as A1. pose proof (w_acc2 s W) as A2. pose proof (w_len s W) as L.
+    assert (Hrun : running s = true).
+    { destruct (running s) eqn:R; [reflexivity|]. pose proof (w_run s W R). congruence. }
+    destruct (outq s) as [|o q] eqn:Eo.
+    + destruct (hand s) as [h|] eqn:Eh.
+      * exists RunHand. unfold step. rewrite (w_crash s W), Hrun, Eh, Eo. eauto.
+      * destruct (input s) as [|x xs] eqn:Ei.
+        -- destruct (held s) as [|h hs] eqn:Eh2.
+           ++ exfalso. unfold hand_list in L. rewrite Eh in L. simpl in L. lia.
+           ++ exists (FinCall h). unfold step. rewrite (w_crash s W), (winv_alive _ _ W Hin).
+              simpl. rewrite Eh2. simpl. rewrite Nat.eqb_refl. eauto.
+        -- exists RunRecv. unfold step. rewrite (w_crash s W), Hrun, Eh, Ei. eauto.
+    + exists Consume. unfold step. rewrite (w_crash s W), Eo. eauto.
+  - assert (P : 0 < sumw w_nonsel (calls s)) by lia.
+    destruct (sumw_pos_In _ _ P) as [p [Hin Hp]].
+    assert (Hp1 : w_nonsel p = 1) by (destruct p; simpl in *; lia).
+    destruct (call_enabled s p W Hin Hp1) as [l [s' [L E]]].
+    exists l, s'. split; [unfold progress_label, internal; rewrite L; reflexivity|].
+    split; [destruct l; simpl in L; try discriminate; reflexivity | exact E].
+Qed.
+
+(* the two statements over whole executions of reactor + well-formed client *)
+Lemma progress_lemma : forall n m ls s, 1 <= n -> runw fixed (init n m) ls = Some s ->
+  (calls s <> [] -> exists l s', progress_label l = true /\ wf_label s l = true /\ step fixed s l = Some s')
+  /\ (forall ls' s', forallb internal ls' = true -> run fixed s ls' = Some s' ->
+        measure s' + length ls' <= measure s).
+Proof.
+  intros n m ls s Hn H. pose proof (winv_runw _ _ _ _ H) as W.
+  assert (C : cap s = n).
+  { apply runw_run in H. eapply (run_inv fixed (fun s => cap s = n)); [| | exact H]; [|reflexivity].
+    intros s0 l s1 E0 E1. apply cap_step in E1. destruct E1. congruence. }
+  split.
+  - intro Hne. apply deadlock_free_lemma; auto. lia.
+  - intros. eapply measure_run; eauto.
+Qed.
+
+(* ------------------------------------------------------------------ non-vacuity *)
+
+(* one accepted insert, delivered through run() and the output buffer to a consumer, fed back;
+   a second insert that holds a token and has not stored yet *)
+Definition ls_ex : list label :=
+  [InsCall 1; InsSelect 1 ArmChan; InsCheck 1 ArmChan; InsStore 1; InsSend 1; RunRecv; RunSend; Consume;
+   InsCall 2; InsSelect 2 ArmChan; FbCall 1; FbLoad 1; FbCas 1; FbCheck 1 ArmChan].
+
+(* accounting / never-blocks / ledger: a reachable well-formed state with a transient token and a
+   feedback at its select *)
+Example ex_reachable : exists s,
+  runw fixed (init 3 1) ls_ex = Some s /\ crashed s = false
+  /\ tokens s = 2 /\ table s = [1] /\ sumw w_trans (calls s) = 1
+  /\ In (PFbSel 1) (calls s) /\ In (PInsChk 2) (calls s) /\ held s = [].
+Proof. eexists. vm_compute. repeat split; auto. Qed.
+
+(* ... from which the feedback's send is enabled, and a finish + repeated finish can be run *)
+Example ex_finish : exists s,
+  run fixed (init 3 1) (ls_ex ++ [FbSelect 1 ArmChan; RunRecv; RunHand]) = Some s
+  /\ crashed s = false /\ nilled s = false /\ In 1 (table s) /\ held s = [1].
+Proof. eexists. vm_compute. repeat split; auto. Qed.
+
+(* closed reactor: a freeze with no call past its test, followed by an insert that even gets a
+   token and by a feedback of a held seed - both are turned away *)
+Example ex_closed : exists s0 s1 s2,
+  run fixed (init 3 1) [InsCall 1; InsSelect 1 ArmChan; InsCheck 1 ArmChan; InsStore 1; InsSend 1; RunRecv; RunHand] = Some s0
+  /\ nilled s0 = false /\ sumw w_past (calls s0) = 0
+  /\ step fixed s0 Freeze = Some s1
+  /\ run fixed s1 [InsCall 2; InsSelect 2 ArmChan; InsCheck 2 ArmFrozen; InsBack 2 false;
+                   FbCall 1; FbLoad 1; FbCas 1; FbCheck 1 ArmFrozen] = Some s2
+  /\ rets s2 = [(OFb 1, RFrozen); (OIns 2, RFrozen)] ++ rets s0 /\ tokens s2 = 1 /\ table s2 = [1].
+Proof. eexists. eexists. eexists. vm_compute. repeat split; auto. Qed.
+
+(* progress: every token is in use and an insert waits for one; its own select is not enabled,
+   the finish of the held seed is *)
+Example ex_blocked : exists s,
+  runw fixed (init 1 1) [InsCall 1; InsSelect 1 ArmChan; InsCheck 1 ArmChan; InsStore 1; InsSend 1;
+                         RunRecv; RunSend; Consume; InsCall 2] = Some s
+  /\ calls s = [PInsSel 2] /\ tokens s = cap s /\ held s = [1]
+  /\ step fixed s (InsSelect 2 ArmChan) = None /\ step fixed s (InsSelect 2 ArmCtx) = None
+  /\ step fixed s (InsSelect 2 ArmFrozen) = None
+  /\ wf_label s (FinCall 1) = true /\ step fixed s (FinCall 1) <> None.
+Proof. eexists. vm_compute. repeat split; auto; discriminate. Qed.
+
+(* delivery: something in every stage of the pipe *)
+Example ex_transit : exists s,
+  run fixed (init 3 1) [InsCall 1; InsSelect 1 ArmChan; InsCheck 1 ArmChan; InsStore 1; InsSend 1;
+                        InsCall 2; InsSelect 2 ArmChan; InsCheck 2 ArmChan; InsStore 2; InsSend 2;
+                        InsCall 3; InsSelect 3 ArmChan; InsCheck 3 ArmChan; InsStore 3; InsSend 3;
+                        RunRecv; RunSend; RunRecv] = Some s
+  /\ crashed s = false /\ running s = true
+  /\ outq s = [1] /\ hand s = Some 2 /\ input s = [3] /\ sys_measure s = 6
+  /\ drain_labels s = [Consume; RunHand; RunRecv; RunHand].
+Proof. eexists. vm_compute. repeat split; auto. Qed.
+
+(* the client discipline is needed: a client that feeds back a seed it does not hold can fill the
+   input channel, and then a feedback does block (one token, nobody reads the output) *)
+Example ex_illformed_feedback_blocks : exists s,
+  run fixed (init 1 0) [InsCall 1; InsSelect 1 ArmChan; InsCheck 1 ArmChan; InsStore 1; InsSend 1; RunRecv;
+                        FbCall 1; FbLoad 1; FbCas 1; FbCheck 1 ArmChan; FbSelect 1 ArmChan;
+                        FbCall 1; FbLoad 1; FbCas 1; FbCheck 1 ArmChan] = Some s
+  /\ crashed s = false /\ calls s = [PFbSel 1] /\ length (input s) = cap s
+  /\ step fixed s (FbSelect 1 ArmChan) = None.
+Proof. eexists. vm_compute. repeat split; auto. Qed.
+
+(* a duplicate insert panics with its token taken: what the crashed flag stands for *)
+Example ex_duplicate_insert_panics : exists s,
+  run fixed (init 2 1) [InsCall 1; InsSelect 1 ArmChan; InsCheck 1 ArmChan; InsStore 1; InsSend 1;
+                        InsCall 1; InsSelect 1 ArmChan; InsCheck 1 ArmChan; InsStore 1] = Some s
+  /\ crashed s = true /\ rets s = [(OIns 1, RPanic); (OIns 1, ROk)] /\ tokens s = 2 /\ table s = [1].
+Proof. eexists. vm_compute. repeat split; auto. Qed.
+
+(* ------------------------------------------------------------------ every accepted seed reaches the output *)
+
+Lemma sys_step_flags : forall v s l s', sys_step l = true -> step v s l = Some s' ->
+  crashed s' = crashed s /\ running s' = running s.
+Proof. intros v s l s' L H. step_cases H; try discriminate L; unf; simpl; auto. Qed.
+
+Lemma sys_run_flags : forall v ls s s', forallb sys_step ls = true -> run v s ls = Some s' ->
+  crashed s' = crashed s /\ running s' = running s /\ rets s' = rets s.
+Proof.
+  induction ls as [|l r IH]; simpl; intros s s' A H.
+  - inversion H; subst. auto.
+  - apply andb_true_iff in A. destruct A as [A1 A2].
+    destruct (step v s l) as [s1|] eqn:E; [|discriminate].
+    destruct (sys_step_flags _ _ _ _ A1 E) as [F1 F2].
+    destruct (sys_step_lemma _ _ _ _ A1 E) as [_ [_ [_ [_ [_ R1]]]]].
+    destruct (IH _ _ A2 H) as [G1 [G2 G3]]. repeat split; congruence.
+Qed.
+
+Lemma drain_input_sys : forall n, forallb sys_step (drain_input n) = true.
+Proof. induction n; simpl; auto. Qed.
+
+Lemma drain_labels_sys : forall s, forallb sys_step (drain_labels s) = true.
+Proof.
+  intro s. unfold drain_labels. rewrite !forallb_app. rewrite drain_input_sys.
+  destruct (hand s); simpl; rewrite andb_true_r;
+    induction (length (outq s)); simpl; auto.
+Qed.
+
+(* From any state the reactor reaches with run() alive: (1) there is a schedule of run() and
+   consumer steps after which the consumers have received every seed of every insert / feedback
+   that returned nil so far, in the order of those returns; (2) whatever run() and the consumers
+   do, nothing in transit is lost or reordered, they can take at most [sys_measure] steps, they
+   are never stuck before everything is delivered. *)
+Lemma delivery_lemma : forall v n m ls s,
+  run v (init n m) ls = Some s -> crashed s = false -> running s = true ->
+  (exists s', run v s (drain_labels s) = Some s'
+     /\ consumed s' = rev (omap send_ok (rets s')) /\ rets s' = rets s
+     /\ outq s' = [] /\ hand s' = None /\ input s' = [])
+  /\ (forall ls' s', forallb sys_step ls' = true -> run v s ls' = Some s' ->
+        flow s' = rev (omap send_ok (rets s')) /\ rets s' = rets s
+        /\ sys_measure s' + length ls' <= sys_measure s
+        /\ (sys_measure s' = 0 -> consumed s' = rev (omap send_ok (rets s')))
+        /\ (0 < sys_measure s' -> exists l s'', sys_step l = true /\ step v s' l = Some s'')).
+Proof.
+  intros v n m ls s H Hc Hr. pose proof (fifo_lemma _ _ _ _ _ H) as F. fold (flow s) in F.
+  split.
+  - destruct (drain_lemma v s Hc Hr) as [s' [R [C [O [Hh I]]]]].
+    destruct (sys_run_flags _ _ _ _ (drain_labels_sys s) R) as [_ [_ X]].
+    exists s'. rewrite X. repeat split; auto. congruence.
+  - intros ls' s' A R.
+    destruct (sys_run_lemma _ _ _ _ A R) as [F1 [M1 _]].
+    destruct (sys_run_flags _ _ _ _ A R) as [G1 [G2 G3]].
+    rewrite G3. split; [congruence|]. split; [reflexivity|]. split; [exact M1|]. split.
+    + intro Z. rewrite (sys_done_lemma _ Z). congruence.
+    + intro Z. apply sys_enabled_lemma; congruence.
+Qed.
